@@ -164,9 +164,11 @@ def worker(pid, infile, outfile):
         return 0
     from vt import reach
     try:
+        # resolve the anchors' code objects *before* contracts are attached: icontract replaces the methods of a
+        # decorated class by wrappers that all share one code object
+        counter = reach.ReachCounter(getattr(mod, "ANCHORS", []))
         if hasattr(mod, "setup"):
             mod.setup()
-        counter = reach.ReachCounter(getattr(mod, "ANCHORS", []))
         counter.start()
     except Exception:
         out.write(dumps({"fatal": "setup", "error": traceback.format_exc()[-2000:]}) + "\n")
